@@ -9,6 +9,7 @@ Definition hev_eqb (a b : hev) : bool :=
   | HMsg c i m, HMsg c' i' m' => Z.eqb c c' && Z.eqb i i' && Z.eqb m m'
   | HMsgNil m, HMsgNil m' => Z.eqb m m'
   | HRemove c i g, HRemove c' i' g' => Z.eqb c c' && Z.eqb i i' && Bool.eqb g g'
+  | HOnClose c i, HOnClose c' i' => Z.eqb c c' && Z.eqb i i'
   | HCloseCb c i, HCloseCb c' i' => Z.eqb c c' && Z.eqb i i'
   | _, _ => false
   end.
@@ -86,7 +87,7 @@ Definition must_end (c : Z) (ops : list op) : bool :=
 
 Definition known_conn (cs : list Z) (h : hev) : bool :=
   match h with
-  | HAdd c _ | HMsg c _ _ | HRemove c _ _ | HCloseCb c _ => zmem c cs
+  | HAdd c _ | HMsg c _ _ | HRemove c _ _ | HOnClose c _ | HCloseCb c _ => zmem c cs
   | HMsgNil _ => false        (* Process(nil, msg): a message handled for no session *)
   end.
 
